@@ -84,7 +84,7 @@ def conclude(prop, tier, seed, result, wall):
 
 # ----------------------------------------------------------------------------- machine checks
 
-def machine_runs(prop, fams, tier, seed, replay, indented=False, require=()):
+def machine_runs(prop, fams, tier, seed, replay, indented=True, require=()):
     """MC of the specification + real runs for each family; returns the runs.
     A violated invariant in the *model* is a tool error (the specification contradicts itself)."""
     runs = []
@@ -175,4 +175,460 @@ def check_C01(tier, seed, replay):
     return res
 
 
-CHECKS = {"C01": check_C01}
+
+import traces  # noqa: E402
+import dbgparse  # noqa: E402
+
+
+def generic(prop, fams, tier, seed, replay, preds, rule, nontrivial, require=(), indented=True, assumptions=()):
+    """spec > impl over the families: every predicate on every case"""
+    res = Result()
+    runs, cov = machine_runs(prop, fams, tier, seed, replay, indented=indented, require=require)
+    cases = [c for r in runs for c in r.cases]
+    drift = nt = 0
+    for c in cases:
+        v = None
+        for p in preds:
+            v = p(prop, c)
+            if v is not None:
+                break
+        res.add(v)
+        if v is None and not c.crashed and props.drift(c):
+            drift += 1
+        if nontrivial(c):
+            nt += 1
+    res.coverage = base_coverage(runs, cov, cases, nt, rule, len(cases))
+    res.coverage["drift"] = drift
+    res.assumptions = list(assumptions) + ["small-scope: grammar shapes and input length are bounded"]
+    if drift:
+        res.notes.append("DRIFT property=%s %d cases where the tracer callback sequence differs from the machine's "
+                         "(no property predicate falsified)" % (prop, drift))
+    return res, runs, cases
+
+
+def monitor(res, prop, kind, cases, tier, formula, what):
+    """impl > spec: validate the recorded traces with TLC against a monitor specification"""
+    bad, ev, st = traces.validate_cases(kind, cases, os.path.join(vlib.WORK, tier, "traces"), prop)
+    res.coverage["traces_validated_against_impl"] = res.coverage.get("traces_validated_against_impl", 0) + st["traces"]
+    res.coverage.setdefault("monitors", {})[traces.MONITORS[kind]] = {
+        "traces": st["traces"], "events": st["events"], "tlc_states": st["states"], "seconds": round(st["secs"], 1)}
+    res.coverage["states"] = res.coverage.get("states", 0) + st["states"]
+    res.coverage["transitions"] = res.coverage.get("transitions", 0) + max(0, st["states"] - 1)
+    if bad is not None:
+        res.add(Violation(prop, formula, "%s: the recorded trace is rejected by %s at event %s" % (
+            what, traces.MONITORS[kind], ev), bad, {"rejected_event": ev}))
+    return st
+
+
+# ---------------------------------------------------------------------------------------------- C02
+def check_C02(tier, seed, replay):
+    res, runs, cases = generic(
+        "C02", ["fields"], tier, seed, replay, [lambda p, c: None if c.crashed else props.p_tree(p, c)],
+        "field-plumbing shapes (every depth-1 tree over field atoms, sampled deeper ones, hand-written shapes, "
+        "override forms) x all inputs up to the bound; non-trivial = accepted input whose tree holds a match",
+        lambda c: c.exp["ok"] and c.inp != [],
+        require=("OptFail", "AltFail", "CloIter", "SeqNext", "AnyChar"),
+        assumptions=["derive(Debug) rendering is the observation channel; position ranges masked (C09 owns them)"])
+    return res
+
+
+# ---------------------------------------------------------------------------------------------- C04
+def p_boundaries(prop, c):
+    if c.crashed:
+        return Violation(prop, "NoPanic", "the generated parser did not return: %s" % c.crash_msg, c)
+    b = set(traces.boundaries(c.text))
+    a = c.act
+    for f, ln, _ in a.get("advs", []):
+        if f not in b or f + ln not in b:
+            return Violation(prop, "OnBoundary", "cursor advance from %d by %d leaves the character boundaries" % (f, ln), c)
+    if not a["res"]["ok"] and a["res"]["errp"] not in b:
+        return Violation(prop, "OnBoundary", "error position %d is not a character boundary" % a["res"]["errp"], c)
+    if a["res"]["ok"]:
+        for x, y in dbgparse.ranges_of(c.tree):
+            if x not in b or y not in b or x > y:
+                return Violation(prop, "OnBoundary", "position range %d..%d is not on character boundaries" % (x, y), c)
+        for s_ in dbgparse.strings_of(c.tree):
+            if s_ not in c.text:
+                return Violation(prop, "Substring", "string %r in the tree is not a substring of the input" % s_, c)
+    return None
+
+
+def check_C04(tier, seed, replay):
+    res, runs, cases = generic(
+        "C04", ["uni"], tier, seed, replay, [p_boundaries, props.p_conforms],
+        "literals / ranges / ci literals / classes / char / extern over {a, A, e-acute (C3 A9), U+9053 (E9 81 93), "
+        "U+1F600} and code-point range end points x all inputs up to the bound plus seeded random Unicode strings; "
+        "non-trivial = input containing a multi-byte character",
+        lambda c: any(x > 127 for x in c.inp),
+        require=("Lit", "Range", "AnyChar", "CallChar", "CallExtern"),
+        assumptions=["memory safety itself is not decidable by this technique: decided is the precondition of the "
+                     "single unsafe operation (every advance on a boundary and in bounds, hook H1 asserts it)"])
+    monitor(res, "C04", "boundary", cases, tier, "BoundaryMonitor", "an offset off a character boundary, or a panic")
+    return res
+
+
+# ---------------------------------------------------------------------------------------------- C05
+def check_C05(tier, seed, replay):
+    res, runs, cases = generic(
+        "C05", ["memo"], tier, seed, replay,
+        [lambda p, c: None if c.crashed else props.p_conforms(p, c), lambda p, c: None if c.crashed else props.p_tree(p, c, ranges=True)],
+        "grammars with shared-prefix / nested / lookahead-reuse shapes x subsets of rules marked @memoize x all inputs "
+        "up to the bound; non-trivial = a case of a variant with at least one memoized rule",
+        lambda c: bool(c.g.meta.get("memo")), require=("MemoHit", "MemoMiss", "MemoStore"))
+    # variant against variant on the real code
+    groups = {}
+    for c in cases:
+        groups.setdefault((c.g.meta["base"], tuple(c.inp)), []).append(c)
+    pairs = 0
+    for key, cs in groups.items():
+        ref = next((c for c in cs if not c.g.meta["memo"]), cs[0])
+        for c in cs:
+            if c is ref or c.crashed or ref.crashed:
+                continue
+            pairs += 1
+            if c.ok != ref.ok:
+                res.add(Violation("C05", "MemoInvisible", "acceptance differs between memo variants %s and %s" % (
+                    ref.g.meta["memo"], c.g.meta["memo"]), c))
+            elif c.ok and c.tree != ref.tree:
+                res.add(Violation("C05", "MemoInvisible", "tree differs between memo variants %s and %s" % (
+                    ref.g.meta["memo"], c.g.meta["memo"]), c))
+    res.coverage["variant_pairs_compared"] = pairs
+    # every call starts from an empty cache: same results in another call order, and hits explained
+    for r in runs:
+        rev = rerun_reversed(r)
+        for c in r.cases:
+            o = rev.get((c.gid, tuple(c.inp)))
+            if o is not None and o.get("res") != c.act.get("res"):
+                res.add(Violation("C05", "FreshCache", "the result depends on the inputs parsed earlier in the process", c))
+    monitor(res, "C05", "cache", cases, tier, "FreshCache", "a cache hit that no entry of the current call explains")
+    return res
+
+
+def rerun_reversed(run):
+    """the same cases in reverse order in a fresh process -> {(gid, inp): outcome}"""
+    d = vlib.famdir(run.tlc and run.cdir and os.path.basename(os.path.dirname(run.cdir)), run.tier)
+    cases = os.path.join(run.cdir, "cases.tsv")
+    rev = os.path.join(d, "cases_rev.tsv")
+    lines = open(cases).read().splitlines()
+    with open(rev, "w") as f:
+        f.write("\n".join(reversed(lines)) + "\n")
+    binp = os.path.join(vlib.WORK, "target", "debug", "fam_%s_%s" % (os.path.basename(d), run.tier))
+    outs = vlib.run_runner(binp, rev, os.path.join(d, "outcomes_rev.jsonl"))
+    return {(o["g"], tuple(o["inp"])): o for o in outs if "inp" in o}
+
+
+# ---------------------------------------------------------------------------------------------- C06
+def p_packrat(prop, c):
+    if c.crashed:
+        return None
+    meta = c.g.meta
+    seen = {}
+    for e in c.act.get("user", []):
+        if e["ev"] == "ext":
+            seen[(e["r"], e["p"])] = seen.get((e["r"], e["p"]), 0) + 1
+    for r in meta.get("memo", []):
+        fn = meta["probes"][r]["fn"]
+        for (name, p_), n in seen.items():
+            if name == fn and n > 1:
+                return Violation(prop, "Packrat", "the body of memoized rule %s ran %d times at offset %d" % (r, n, p_), c,
+                                 {"site": r})
+    if meta.get("all_memo"):
+        nb = len(c.text.encode("utf-8"))
+        total = sum(n for (name, _), n in seen.items() if name.startswith("ext_probe"))
+        if total > meta["nrules"] * (nb + 1):
+            return Violation(prop, "PackratBound", "%d body evaluations exceed rules x (length + 1) = %d" % (
+                total, meta["nrules"] * (nb + 1)), c)
+    return None
+
+
+def check_C06(tier, seed, replay):
+    res, runs, cases = generic(
+        "C06", ["memo"], tier, seed, replay, [p_packrat],
+        "memo family (a zero-length extern probe at the start of every memoizable body) x subsets of @memoize x all "
+        "inputs up to the bound plus long nested inputs; non-trivial = some memoized rule is attempted twice at one "
+        "offset (a cache hit happens in the model)",
+        lambda c: any(h["ev"] == "info" and h["r"] == "hit" for h in c.exp.get("hist", [])),
+        require=("MemoHit", "MemoMiss", "MemoStore", "CallExtern"))
+    memo_cases = [c for c in cases if c.g.meta.get("memo") and not c.crashed]
+    monitor(res, "C06", "packrat", memo_cases, tier, "Packrat", "a memoized body evaluated twice at one offset")
+    failing = sum(1 for c in memo_cases if any(h["ev"] == "info" and h["r"] == "hit" for h in c.exp.get("hist", []))
+                  and not c.exp["ok"])
+    res.coverage["cases_with_hit_on_failing_parse"] = failing
+    return res
+
+
+# ---------------------------------------------------------------------------------------------- C07
+def check_C07(tier, seed, replay):
+    res, runs, cases = generic(
+        "C07", ["lr"], tier, seed, replay,
+        [props.p_crash, props.p_conforms, lambda p, c: props.p_tree(p, c, ranges=True)],
+        "left-recursive shapes (direct, several operators, base first, wrapped, indirect, skipping, under a lookahead, "
+        "@string, two levels, growth stopping midway, guarded base) x all inputs up to the bound; non-trivial = the "
+        "growth loop extends the seed at least once",
+        lambda c: sum(1 for h in c.exp.get("hist", []) if h["ev"] == "info" and h["r"] == "lrloop") >= 3,
+        require=("LrHit", "LrSeed", "LrGrow", "LrStop"),
+        assumptions=["termination on the real code is a per-case watchdog (20 s without progress)"])
+    return res
+
+
+# ---------------------------------------------------------------------------------------------- C08
+def check_C08(tier, seed, replay):
+    res, runs, cases = generic(
+        "C08", ["ws"], tier, seed, replay,
+        [lambda p, c: None if c.crashed else props.p_conforms(p, c),
+         lambda p, c: None if c.crashed else props.p_tree(p, c, ranges=True)],
+        "skipping and non-skipping rules calling and including each other, @string / @char / char / explicit Whitespace "
+        "calls, grammar-defined Whitespace (with comments; one that can fail) x all inputs over token characters, "
+        "whitespace and near misses (\\x0B, \\x0C, \\t, \\r) up to the bound; non-trivial = input with a whitespace-like "
+        "character",
+        lambda c: any(x in (32, 9, 10, 11, 12, 13, 35, 46) for x in c.inp),
+        require=("SkipWsBuiltin", "SkipWsUser", "WsUserOk", "WsUserFail", "IncEnter", "BuiltinWs"))
+    return res
+
+
+# ---------------------------------------------------------------------------------------------- C09
+def p_ranges(prop, c):
+    e = c.exp
+    if c.crashed or not (c.ok and e["ok"]):
+        return None
+    a, x = c.tree, e["tree"]
+    if dbgparse.strip_ranges(a) != dbgparse.strip_ranges(x):
+        return None     # C02 / C08 own this
+    if a != x:
+        return Violation(prop, "RangesExact", "position ranges %s, expected %s" % (
+            dbgparse.ranges_of(a), dbgparse.ranges_of(x)), c)
+    return p_ranges_nest(prop, c)
+
+
+def p_ranges_nest(prop, c):
+    text = c.text.encode("utf-8")
+
+    def walk(v, parent):
+        """returns violation text or None; checks nesting and the @string slice"""
+        if isinstance(v, dict):
+            rng = None
+            if "position" in v and isinstance(v["position"], dict) and "$r" in v["position"]:
+                rng = tuple(v["position"]["$r"])
+                if parent is not None and not (parent[0] <= rng[0] <= rng[1] <= parent[1]):
+                    return "range %s outside its parent's %s" % (rng, parent)
+                if "string" in v and isinstance(v["string"], dict) and "$s" in v["string"]:
+                    s_ = "".join(map(chr, v["string"]["$s"])).encode("utf-8")
+                    if text[rng[0]:rng[1]] != s_:
+                        return "@string @position node: string %r is not the input sliced by %s" % (s_, rng)
+            for k, x in v.items():
+                if k != "position":
+                    r = walk(x, rng or parent)
+                    if r:
+                        return r
+        elif isinstance(v, list):
+            last = None
+            for x in v:
+                r = walk(x, parent)
+                if r:
+                    return r
+                rs = dbgparse.ranges_of(x)
+                if rs:
+                    if last is not None and rs[0][0] < last[1]:
+                        return "successive matches overlap or are out of order: %s then %s" % (last, rs[0])
+                    last = rs[0]
+        return None
+
+    r = walk(c.tree, None)
+    if r:
+        return Violation(prop, "RangesNest", r, c)
+    return None
+
+
+def check_C09(tier, seed, replay):
+    res, runs, cases = generic(
+        "C09", ["pos", "ws"], tier, seed, replay, [p_ranges],
+        "every subset of @position marks on struct / @string / enum-override rules, memoized and left-recursive "
+        "replays, multi-byte characters and whitespace at rule boundaries x all inputs up to the bound; non-trivial = "
+        "accepted input whose tree carries at least two ranges",
+        lambda c: c.exp["ok"] and len(dbgparse.ranges_of(c.exp["tree"])) >= 2,
+        require=("SkipWsBuiltin", "MemoHit", "LrGrow"))
+    return res
+
+
+# ---------------------------------------------------------------------------------------------- C10
+def p_error(prop, c):
+    e = c.exp
+    if c.crashed or c.ok is not False:
+        return None
+    a = c.act["res"]
+    errp = a["errp"]
+    kind = props.real_kind(a["errk"])
+    b = set(traces.boundaries(c.text))
+    real = [(p_, props.real_kind(k)) for p_, k in c.act.get("fails", [])]
+    real_att = [(p_, k) for p_, k in real if k != ("Sentinel",)]
+    offs = {p_ for p_, _ in real_att}
+    if errp not in b:
+        return Violation(prop, "RealFailure", "reported position %d is not a character boundary of the input" % errp, c)
+    if kind == ("Other",):
+        return Violation(prop, "RealFailure", "the reported detail is the internal `Other`", c)
+    lrfirst = c.g.meta.get("lrfirst", True)
+    if kind == ("Sentinel",):
+        if lrfirst:
+            return Violation(prop, "NoSentinel", "the internal left-recursion sentinel is reported", c)
+    else:
+        if errp not in offs:
+            return Violation(prop, "RealFailure", "no match attempt failed at the reported position %d (failures at %s)" % (
+                errp, sorted(offs)), c)
+        if kind not in {k for p_, k in real_att if p_ == errp}:
+            return Violation(prop, "RealFailure", "the reported detail %s names no attempt that failed at %d" % (kind, errp), c)
+    has_memo = any(r.kind == "rule" and (r.memoize or r.leftrec) for r in c.g.rules)
+    if not has_memo and e["ok"] is False:
+        must = {x["p"] for x in e["att"] if not x["la"]} & offs
+        if must and errp < max(must):
+            return Violation(prop, "FurthestFail", "reported position %d but an attempt outside any lookahead failed at %d" % (
+                errp, max(must)), c)
+        if offs and errp > max(offs):
+            return Violation(prop, "FurthestFail", "reported position %d is beyond every failed attempt" % errp, c)
+    return None
+
+
+def check_C10(tier, seed, replay):
+    res, runs, cases = generic(
+        "C10", ["ops", "memo", "lr", "user"], tier, seed, replay, [p_error],
+        "all failing inputs of the operator, memo, left-recursion and user-function families (every template's error "
+        "bookkeeping: optional, closure end, failed alternative, lookaheads, @char classes, check failures, externs); "
+        "non-trivial = failing parse with failed attempts at two or more distinct offsets",
+        lambda c: (not c.exp["ok"]) and len({x["p"] for x in c.exp["att"]}) >= 2,
+        require=("OptFail", "CloStop", "AltFail", "NegFail", "PosFail", "NegOk", "PosOk", "LrSeed", "MemoHit"),
+        assumptions=["the set of attempts that really failed is recorded by hook H2 (ParseState::report_error); which of "
+                     "them lie inside a lookahead is taken from the specification's run of the same case"])
+    return res
+
+
+# ---------------------------------------------------------------------------------------------- C13
+def check_C13(tier, seed, replay):
+    res, runs, cases = generic(
+        "C13", ["inc"], tier, seed, replay,
+        [lambda p, c: None if c.crashed else props.p_conforms(p, c),
+         lambda p, c: None if c.crashed else props.p_tree(p, c, ranges=True)],
+        "includes inside optionals, closures, choices, lookaheads, other included bodies and override rules, in "
+        "skipping and non-skipping includers, included rules carrying directives; each grammar next to its inlined "
+        "twin x all inputs up to the bound; non-trivial = non-empty input",
+        lambda c: c.inp != [], require=("IncEnter",))
+    by = {}
+    for c in cases:
+        by[(c.gid, tuple(c.inp))] = c
+    twins = 0
+    for c in cases:
+        if c.g.meta.get("twin") != "inlined":
+            continue
+        o = by.get((c.g.meta["twin_of"], tuple(c.inp)))
+        if o is None or c.crashed or o.crashed:
+            continue
+        twins += 1
+        ra, rb = o.act["res"], c.act["res"]
+        if ra.get("ok") != rb.get("ok"):
+            res.add(Violation("C13", "IncludeInline", "the grammar and its inlined twin disagree on acceptance", o))
+        elif ra.get("ok") and o.tree != c.tree:
+            res.add(Violation("C13", "IncludeInline", "the grammar and its inlined twin return different trees", o))
+        elif not ra.get("ok") and ra.get("errp") != rb.get("errp"):
+            res.add(Violation("C13", "IncludeInline", "error position %s with the include, %s with the body in place" % (
+                ra.get("errp"), rb.get("errp")), o))
+    # same public types: the declarations the generator emits for the two twins
+    for r in runs:
+        out = gen_out_dir(r)
+        for g in r.grammars:
+            if g.meta.get("twin") == "inlined":
+                ta, tb = public_types(out, g.meta["twin_of"]), public_types(out, g.id)
+                if ta is None or tb is None:
+                    raise ToolError("generated code of %s not found" % g.id)
+                # rules that are only included are still declared in both twins; S is what changes
+                if ta != tb:
+                    res.add(Violation("C13", "IncludeTypes", "public type declarations differ between the twins", None,
+                                      {"name": g.meta["shape"], "with_include": ta[:2000], "inlined": tb[:2000]}))
+    res.coverage["twin_pairs_compared"] = twins
+    return res
+
+
+def gen_out_dir(run):
+    """OUT_DIR of the family crate (where build.rs wrote the generated modules)"""
+    import glob
+    name = "fam_%s_%s" % (os.path.basename(os.path.dirname(run.cdir)), run.tier)
+    cands = glob.glob(os.path.join(vlib.WORK, "target", "debug", "build", name + "-*", "out"))
+    if not cands:
+        raise ToolError("OUT_DIR of %s not found" % name)
+    return max(cands, key=os.path.getmtime)
+
+
+def public_types(out, gid):
+    p_ = os.path.join(out, gid + ".rs")
+    if not os.path.exists(p_):
+        return None
+    t = open(p_).read()
+    i = t.find("mod peginator_generated")
+    return t[:i] if i >= 0 else t
+
+
+# ---------------------------------------------------------------------------------------------- C14
+def p_user_calls(prop, c):
+    if c.crashed:
+        return None
+    exp_ext = {(h["p"]) for h in c.exp.get("hist", []) if h["ev"] == "ext"}
+    text = c.text
+    nb = len(text.encode("utf-8"))
+    for e in c.act.get("user", []):
+        if e["ev"] == "ext":
+            if not (0 <= e["p"] <= nb) or e["p"] not in set(traces.boundaries(text)):
+                return Violation(prop, "CheckExtern", "an extern function was given something that is not a suffix of the input", c)
+            if e["p"] not in exp_ext:
+                return Violation(prop, "CheckExtern", "extern function %s was called at offset %d where the specification makes no such call" % (
+                    e["r"], e["p"]), c)
+    return None
+
+
+def check_C14(tier, seed, replay):
+    res, runs, cases = generic(
+        "C14", ["user"], tier, seed, replay,
+        [lambda p, c: None if c.crashed else props.p_conforms(p, c),
+         lambda p, c: None if c.crashed else props.p_tree(p, c, ranges=True), p_user_calls],
+        "extern rules (String / &str / char results, zero-length, failing) inside sequences, closures, choices, "
+        "lookaheads and memoized rules; checks on @string, struct, enum, @position and @char rules x all inputs up to the "
+        "bound; non-trivial = some user function is called",
+        lambda c: any(h["ev"] in ("ext", "chk") for h in c.exp.get("hist", [])),
+        require=("CallExtern", "RuleBody", "CallChar"),
+        assumptions=["user functions are the mirrored library of spec/PegValues.tla (harness/common/src/oracles.rs)"])
+    return res
+
+
+# ---------------------------------------------------------------------------------------------- C19
+def p_tracing(prop, c):
+    if c.crashed:
+        return Violation(prop, "TraceInert", "the parser did not return under tracing: %s" % c.crash_msg, c)
+    a = c.act
+    if not a.get("rec_same"):
+        return Violation(prop, "TraceInert", "the result with a tracer differs from the plain result: %s" % json.dumps(a.get("rec"))[:300], c)
+    if a.get("ind_same") is False:
+        return Violation(prop, "TraceInert", "parse_with_trace differs from parse: %s" % json.dumps(a.get("ind"))[:300], c)
+    d = 0
+    for e in a.get("events", []):
+        if e["ev"] == "enter":
+            d += 1
+        elif e["ev"] == "exit":
+            d -= 1
+            if d < 0:
+                return Violation(prop, "Balanced", "an exit is reported without a matching entry (indentation underflow)", c)
+    if d != 0:
+        return Violation(prop, "Balanced", "%d rule entries are never exited" % d, c)
+    return None
+
+
+def check_C19(tier, seed, replay):
+    res, runs, cases = generic(
+        "C19", ["ops", "memo", "lr", "user"], tier, seed, replay, [p_tracing],
+        "operator, memo (cache hits), left-recursion (re-evaluation) and user-function (failing checks, externs) "
+        "families x all inputs up to the bound, each parsed plainly, with a recording ParseTracer and with the "
+        "library's IndentedTracer; non-trivial = at least two rule entries",
+        lambda c: sum(1 for h in c.exp.get("hist", []) if h["ev"] == "enter") >= 2,
+        require=("MemoHit", "LrHit", "LrGrow", "RuleExit"), indented=True)
+    monitor(res, "C19", "nesting", cases, tier, "NestingMonitor", "unbalanced tracer callbacks or a result changed by tracing")
+    return res
+
+
+CHECKS = {"C01": check_C01, "C02": check_C02, "C04": check_C04, "C05": check_C05, "C06": check_C06,
+          "C07": check_C07, "C08": check_C08, "C09": check_C09, "C10": check_C10, "C13": check_C13,
+          "C14": check_C14, "C19": check_C19}
